@@ -24,4 +24,46 @@ theorem const_dict_get_cons_str (k : Str) (v : PyVal) (rest : List (PyVal × PyV
   · have : (k == l) = false := by simpa using fun e => h e.symm
     simp [PyRx.const_dict_get, List.find?_cons, h, this]
 
+/-! ### early `return` inside `try` / loops: Lean's `do` notation runs the block in `ExceptT ρ M` and dispatches on the result -/
+
+theorem er_throw {ρ α : Type} (r : ρ) :
+    (throw r : ExceptT ρ M α) = (show M (Except ρ α) from Except.ok (Except.error r)) := by rfl
+theorem er_pure {ρ α : Type} (a : α) :
+    (pure a : ExceptT ρ M α) = (show M (Except ρ α) from Except.ok (Except.ok a)) := by rfl
+
+/-- both arms succeed: pull the test inside (so that a following `match` on the result reduces) -/
+theorem ite_ok {ε α} (c : Prop) [Decidable c] (a b : α) :
+    (if c then (Except.ok a : Except ε α) else Except.ok b) = Except.ok (if c then a else b) := by
+  split <;> rfl
+
+/-- `if b: return True` / `return False` is `return b` -/
+theorem ite_bool_true_false (b : Bool) : (if b = true then PyVal.bool true else PyVal.bool false) = PyVal.bool b := by
+  cases b <;> rfl
+theorem ite_bool_false_true (b : Bool) : (if b = true then PyVal.bool false else PyVal.bool true) = PyVal.bool (!b) := by
+  cases b <;> rfl
+
+/-! ### membership in a constant collection of strings, whatever its kind and order -/
+
+theorem contains_list_nil (x : PyVal) : contains (.list []) x = .ok false := by rfl
+theorem contains_tuple_nil (x : PyVal) : contains (.tuple []) x = .ok false := by rfl
+theorem contains_list_cons_str (k : Str) (rest : List PyVal) (s : Str) :
+    contains (.list (.str k :: rest)) (.str s) = if s = k then .ok true else contains (.list rest) (.str s) := by
+  by_cases h : s = k <;> simp [contains, h, pure, Except.pure]
+theorem contains_tuple_cons_str (k : Str) (rest : List PyVal) (s : Str) :
+    contains (.tuple (.str k :: rest)) (.str s) = if s = k then .ok true else contains (.tuple rest) (.str s) := by
+  by_cases h : s = k <;> simp [contains, h, pure, Except.pure]
+theorem contains_set_str (a : PyVal) (s : Str) : contains_set a (.str s) = contains a (.str s) := by
+  simp [contains_set, hashable]
+
 end PyRt
+
+/-- symbolic evaluation of a translated `do` block: the run-time's evaluation lemmas (already `@[simp]`), the plumbing of
+early returns, constant membership / table look-ups as `if` chains, plus the lemmas given -/
+syntax "src_simp" (" [" Lean.Parser.Tactic.simpLemma,* "]")? : tactic
+macro_rules
+  | `(tactic| src_simp) => `(tactic| src_simp [])
+  | `(tactic| src_simp [$ts,*]) => `(tactic|
+      simp (config := {decide := true}) [EarlyReturnT.return, EarlyReturn.runK, ExceptT.run, StateT.pure, StateT.bind, StateT.run, StateT.get,
+        StateT.set, StateT.lift, StateT.map, ExceptT.pure, ExceptT.mk, ExceptT.lift, PyRt.er_throw, PyRt.er_pure, PyRt.ite_ok, PyRt.ite_bool_true_false, PyRt.ite_bool_false_true, Except.map,
+        PyRt.contains_list_nil, PyRt.contains_tuple_nil, PyRt.contains_list_cons_str, PyRt.contains_tuple_cons_str,
+        PyRt.contains_set_str, PyRt.const_dict_get_cons_str, PyRt.const_dict_get_nil, PyRt.is_none, PyRt.is_not_none, $ts,*])
